@@ -132,3 +132,59 @@ theorem urlSites_total (input : Bytes) : urlSites input ≠ .panic ∧ urlSites 
       simp
 
 end GixModel.C06
+
+namespace GixModel.C06
+open GixModel
+
+theorem rfindNl_lt : ∀ (l : Bytes) (k : Nat), rfindNl l = some k → k < l.length
+  | [], k, h => by simp [rfindNl] at h
+  | b :: bs, k, h => by
+    unfold rfindNl at h
+    cases hr : rfindNl bs with
+    | some j =>
+      simp [hr] at h; subst h
+      have := rfindNl_lt bs j hr
+      simp; omega
+    | none =>
+      simp [hr] at h
+      obtain ⟨_, rfl⟩ := h
+      simp
+
+/-- every probe offset the binary search can produce (`ofs ≤ len`) yields a record start inside
+the buffer: none of the three slices panics -/
+theorem recordStart_total (a : Bytes) (ofs : Nat) (h : ofs ≤ a.length) :
+    recordStart a ofs ≠ .panic ∧ recordStart a ofs ≠ .hang := by
+  unfold recordStart
+  simp only [sliceTo, if_pos h]
+  cases hr : rfindNl (List.take ofs a) with
+  | none => simp [sliceFrom]
+  | some pos =>
+    have hp := rfindNl_lt _ _ hr
+    rw [List.length_take] at hp
+    have hpa : pos < a.length := by omega
+    simp only
+    cases hg : a[pos + 1]? with
+    | none => simp [sliceFrom]
+    | some b =>
+      have hlt : pos + 1 < a.length := by
+        rcases Nat.lt_or_ge (pos + 1) a.length with h1 | h1
+        · exact h1
+        · rw [List.getElem?_eq_none h1] at hg; cases hg
+      simp only
+      by_cases hb : b = 94
+      · simp only [if_pos hb, if_pos (Nat.le_of_lt hpa)]
+        have hs : (Option.map (· + 1) (rfindNl (List.take pos a))).getD 0 ≤ a.length := by
+          cases h2 : rfindNl (List.take pos a) with
+          | none => simp
+          | some q =>
+            have := rfindNl_lt _ _ h2
+            rw [List.length_take] at this
+            simp; omega
+        simp only [sliceFrom, if_pos hs]
+        simp
+      · simp only [if_neg hb]
+        have hs : pos + 1 ≤ a.length := by omega
+        simp only [sliceFrom, if_pos hs]
+        simp
+
+end GixModel.C06
